@@ -61,3 +61,71 @@ fn c20_ip_at_end_of_principal_mapping_is_outside() {
         thread.stack.memory.data_size
     );
 }
+
+/// C06 / C07, tier B′ (bounded-exhaustive, native): fill_thread_stack on this process's own memory for EVERY
+/// 8-byte-aligned in-page offset of the stack pointer (512 offsets) plus 1, 2047, 2049, 4095, with and without
+/// the 2 KiB limit: the region starts no lower than the page of sp, contains sp, is at most the limit,
+/// extends to the mapping end without one, and its bytes equal the memory at the recorded address.
+#[test]
+fn bprime_stack_region_for_every_sp_offset() {
+    let mut keep = vec![0u8; 4096 * 4];
+    let base = (keep.as_ptr() as usize + 4095) & !4095;
+    for i in 0..8192usize {
+        let p = (base + i) as *mut u8;
+        unsafe { *p = (i as u8).wrapping_mul(31) ^ 0xa5 };
+    }
+    let _ = &mut keep;
+    let pid = std::process::id() as i32;
+    let dumper = dumper_for(vec![mapping(base, 8192, MMPermissions::READ | MMPermissions::WRITE)]);
+    let mut offsets: Vec<usize> = (0..4096).step_by(8).collect();
+    offsets.extend([1usize, 2047, 2049, 4095]);
+    let mut n = 0;
+    for limited in [false, true] {
+        for &off in &offsets {
+            let sp = base + 4096 + off; // second page of the mapping
+            let mut config = MinidumpWriter::new(pid, pid);
+            let mut buffer = DumpBuf::with_capacity(0);
+            buffer.write_all(b"hdr");
+            let mut thread = MDRawThread {
+                thread_id: pid as u32, suspend_count: 0, priority_class: 0, priority: 0, teb: 0,
+                stack: MDMemoryDescriptor::default(), thread_context: MDLocationDescriptor::default(),
+            };
+            let cap = if limited { MaxStackLen::Len(LIMIT_MAX_EXTRA_THREAD_STACK_LEN) } else { MaxStackLen::None };
+            fill_thread_stack(&mut config, &mut buffer, &dumper, &mut thread, 0, sp, cap).expect("fill_thread_stack");
+            n += 1;
+            let st = thread.stack;
+            let (start, len) = (st.start_of_memory_range as usize, st.memory.data_size as usize);
+            assert_eq!(config.memory_blocks.len(), 1, "the stack is a memory region");
+            assert!(start >= (sp & !4095), "starts no lower than the page of sp (off {off}, limited {limited})");
+            assert!(start <= sp && sp < start + len, "contains sp: [{start:#x}, {:#x}) sp={sp:#x} (off {off}, limited {limited})", start + len);
+            if limited { assert!(len <= 2048); } else { assert_eq!(start + len, base + 8192, "extends to the end of the mapping"); assert_eq!(start, sp & !4095); }
+            assert_eq!(st.memory.rva, 3, "appended after the existing image");
+            let img: &[u8] = &buffer;
+            assert_eq!(img.len(), 3 + len);
+            for k in [0usize, len / 2, len - 1] {
+                let want = unsafe { *((start + k) as *const u8) };
+                assert_eq!(img[3 + k], want, "byte {k} of the region equals target memory");
+            }
+        }
+    }
+    // the stack pointer below the mapping (overflow into the guard gap): the region begins at the first plausible
+    // stack mapping above it and is recorded at THAT address
+    for below in [8usize, 0x1ad8, 4096 * 3] {
+        let sp = base - below;
+        let mut config = MinidumpWriter::new(pid, pid);
+        let mut buffer = DumpBuf::with_capacity(0);
+        let mut thread = MDRawThread {
+            thread_id: pid as u32, suspend_count: 0, priority_class: 0, priority: 0, teb: 0,
+            stack: MDMemoryDescriptor::default(), thread_context: MDLocationDescriptor::default(),
+        };
+        fill_thread_stack(&mut config, &mut buffer, &dumper, &mut thread, 0, sp, MaxStackLen::None).expect("fill_thread_stack");
+        n += 1;
+        let st = thread.stack;
+        assert_eq!(st.start_of_memory_range as usize, base, "sp {below:#x} below the mapping: the region is recorded at the mapping start");
+        assert_eq!(st.memory.data_size as usize, 8192);
+        let img: &[u8] = &buffer;
+        assert_eq!(img[0], unsafe { *(base as *const u8) }, "bytes equal the memory at the recorded address");
+    }
+    println!("BPRIME evaluations={n}");
+    std::mem::forget(dumper);
+}
